@@ -2,7 +2,7 @@
 with one worker made to die at a chosen point of its batch, and exits 0 only if run_realign returned normally.
 
 usage: python -m mc.realfault_driver <dir> <cores> <batch> <worker> <k> <kind> <graph file>
-kind: kill (SIGKILL) | term (SIGTERM) | exc (exception inside the worker body) | exit3 (os._exit(3))"""
+kind: kill (SIGKILL) | lockkill / lockexit (SIGKILL / os._exit(3) while holding the result queue's write lock) | term (SIGTERM) | exc (exception inside the worker body) | exit3 (os._exit(3))"""
 
 import os
 import sys
@@ -31,7 +31,14 @@ def main(argv):
 
             def put(self, item, *a, **kw):
                 if mine and self.n == k:
-                    if kind == "kill":
+                    if kind in ("lockkill", "lockexit"):
+                        # death in the middle of a delivery: the feeder thread holds the queue's cross-process write lock
+                        qu._wlock.acquire()
+                        if kind == "lockexit":
+                            os._exit(3)
+                        os.kill(os.getpid(), signal.SIGKILL)
+                        time.sleep(30)
+                    elif kind == "kill":
                         os.kill(os.getpid(), signal.SIGKILL)
                         time.sleep(30)
                     elif kind == "term":
